@@ -324,14 +324,17 @@ def run(ctx: Context) -> None:
         fflow = ctx.flow(ff)
         fcfg = ctx.cfg(ff)
         rets = ff.returns()
+        from .common import facts as _facts08
         seq = []
         for r in sorted(rets, key=lambda r: r.lineno):
-            seq.append((norm_text(r.value), guards(ff, r)))
+            seq.append((norm_text(r.value), _facts08(ctx, ff, r, expand=False)))
         dp = ff.params[0]
-        ok = (len(seq) == 3 and seq[0] == ('numpy.ma.masked', [(f'numpy.ma.is_masked({dp}.values)', True)])
-              and seq[1][0] == f'{dp}.attrs[attr]' and (f'attr in {dp}.attrs', True) in seq[1][1] and (f'numpy.ma.is_masked({dp}.values)', False) in seq[1][1] and len(seq[1][1]) == 2
+        MASKED = f'numpy.any(numpy.ma.getmask({dp}.values))'
+        other = lambda fs: {c for c in fs if 'encod' not in c[0]}       # noqa: E731  (the refusal of packed integers is judged below)
+        ok = (len(seq) == 3 and seq[0][0] == 'numpy.ma.masked' and seq[0][1] == {(MASKED, True)}
+              and seq[1][0] == f'{dp}.attrs[attr]' and other(seq[1][1]) == {(f'attr in {dp}.attrs', True), (MASKED, False)}
               and seq[2][0] == 'fill_value' and (f'promoted_dtype == {dp}.dtype', True) in seq[2][1]
-              and {c for c in seq[2][1]} <= {(f'promoted_dtype == {dp}.dtype', True), (f'numpy.ma.is_masked({dp}.values)', False), (f'attr in {dp}.attrs', False)})
+              and other(seq[2][1]) <= {(f'promoted_dtype == {dp}.dtype', True), (MASKED, False), (f'attr in {dp}.attrs', False)})
         ctx.check('R08.6', ok, "masked data first; then an attribute that is present (membership test, any value); then the dtype's own missing value", ff, ff.node,
                   construct=f"returns: {seq}")
         loops_ = [n for n in walk_no_nested(ff.node) if isinstance(n, ast.For) and any(isinstance(x, ast.Return) for x in ast.walk(n))]
